@@ -50,15 +50,17 @@ func ruleRender(r *Run) {
 	om := r.Ob("FE-MODIDX", "main.renderResult palette index", "the palette lookup names[(number of coloured containers) % m + c] is in range for every number of containers")
 	{
 		var ia *ssa.IndexAddr
-		allInstrs(fn, func(in ssa.Instruction) {
-			if x, ok := in.(*ssa.IndexAddr); ok {
-				if u, ok := x.X.(*ssa.UnOp); ok {
-					if g, ok := u.X.(*ssa.Global); ok && globalName(g) == "names" {
-						ia = x
+		for _, gf := range funcGroup(fn) {
+			allInstrs(gf, func(in ssa.Instruction) {
+				if x, ok := in.(*ssa.IndexAddr); ok {
+					if u, ok := x.X.(*ssa.UnOp); ok {
+						if g, ok := u.X.(*ssa.Global); ok && globalName(g) == "names" {
+							ia = x
+						}
 					}
 				}
-			}
-		})
+			})
+		}
 		if ia == nil {
 			om.Fail(r.pos(fn.Pos()), "no lookup in the palette names found")
 		} else {
@@ -297,14 +299,14 @@ func ruleRender(r *Run) {
 	// ---- one Write per entry
 	// the function that builds the written line: renderResult itself, or a helper whose
 	// result is what is written (its options / buffer parameters are bound at the call)
-	builder, bOpts := fn, ssa.Value(opts)
+	builder := fn
 	var builderCall *ssa.Call
 	if writeCall != nil {
 		if hc, ok := writeCall.Call.Args[0].(*ssa.Call); ok {
 			if h := hc.Common().StaticCallee(); h != nil && h.Blocks != nil && h.Pkg == fn.Pkg {
 				for i, a := range hc.Call.Args {
 					if i < len(h.Params) && (a == ssa.Value(opts) || unspill(a) == ssa.Value(opts)) {
-						builder, bOpts, builderCall = h, h.Params[i], hc
+						builder, builderCall = h, hc
 					}
 				}
 			}
@@ -357,8 +359,29 @@ func ruleRender(r *Run) {
 		for _, out := range outs {
 			one := false
 			if a2, ok := out.(*ssa.Call); ok && isAppend(a2) {
-				if nl, ok := constStr(a2.Call.Args[1]); ok && nl == "\n" {
-					if a1, ok := a2.Call.Args[0].(*ssa.Call); ok && isAppend(a1) {
+				nl, okNL := constStr(a2.Call.Args[1])
+				if !okNL {
+					// append(buf, '\n'): a one-element byte slice holding 10
+					if sl, ok := a2.Call.Args[1].(*ssa.Slice); ok {
+						if arr, ok := sl.X.(*ssa.Alloc); ok {
+							cnt := 0
+							for _, ref := range *arr.Referrers() {
+								if ia, ok := ref.(*ssa.IndexAddr); ok {
+									for _, st := range storesTo(ia) {
+										cnt++
+										if c, ok := constInt(st.Val); ok && c == 10 && cnt == 1 {
+											nl, okNL = "\n", true
+										} else {
+											okNL = false
+										}
+									}
+								}
+							}
+						}
+					}
+				}
+				if okNL && nl == "\n" {
+					if a1, ok := sameBlockValue(a2.Call.Args[0]).(*ssa.Call); ok && isAppend(a1) {
 						if tr, ok := a1.Call.Args[1].(*ssa.Call); ok && callIs(tr, "strings", "TrimRight") {
 							cut, okc := constStr(tr.Call.Args[1])
 							f, _, okf := loadOfField(tr.Call.Args[0])
@@ -410,120 +433,27 @@ func ruleRender(r *Run) {
 
 	// ---- option guards: colour bytes only with colour on; container/timestamp parts under their options
 	og := r.Ob("GUARD", "main.renderResult options", "escape sequences are appended only when colour is on; the container name only with the container option; the timestamp only with the timestamp option, formatted as RFC3339Nano from time.Unix(0, T)")
-	{
-		bad := false
-		type guardScope struct {
-			f *ssa.Function
-			o ssa.Value
-		}
-		scopes := []guardScope{{fn, opts}}
-		if builder != fn {
-			scopes = append(scopes, guardScope{builder, bOpts})
-		}
-		for _, sc := range scopes {
-			opts := sc.o
-			allInstrs(sc.f, func(in ssa.Instruction) {
-				u, ok := in.(*ssa.UnOp)
-				if !ok || u.Op != token.MUL {
-					return
-				}
-				g, ok := u.X.(*ssa.Global)
-				if !ok || (globalName(g) != "colors" && globalName(g) != "resetColor") {
-					return
-				}
-				if !underOpt(u.Block(), opts, "color") {
-					bad = true
-					og.Fail(r.pos(u.Pos()), "%s is used on a path where the colour option is not known to be on", globalName(g))
-				}
-			})
-			// containerColors map lookups for output
-			allInstrs(sc.f, func(in ssa.Instruction) {
-				lk, ok := in.(*ssa.Lookup)
-				if !ok || lk.CommaOk {
-					return
-				}
-				if mt, ok := lk.X.Type().Underlying().(*types.Map); ok && isStringType(mt.Elem()) && isStringType(mt.Key()) {
-					if _, isG := addrRoot(lk.X).(*ssa.Global); isG {
-						return
-					}
-					if strings.Contains(describe(lk.X, 0), "labels") || strings.Contains(describe(lk.X, 0), "Value") {
-						return // stream labels
-					}
-					if !underOpt(lk.Block(), opts, "color") {
-						bad = true
-						og.Fail(r.pos(lk.Pos()), "a container colour is looked up with colour off")
-					}
-				}
-			})
-			var lineBlocks []*ssa.BasicBlock
-			if sc.f == fn && write != nil {
-				for b := range write.Blocks {
-					lineBlocks = append(lineBlocks, b)
-				}
-			} else if sc.f != fn {
-				lineBlocks = sc.f.Blocks
-			}
-			{
-				// container name appended under opts.container; timestamp under opts.timestamp
-				for _, b := range lineBlocks {
-					for _, in := range b.Instrs {
-						c, ok := in.(*ssa.Call)
-						if !ok {
-							continue
-						}
-						if bi, ok := c.Call.Value.(*ssa.Builtin); ok && bi.Name() == "append" && len(c.Call.Args) == 2 {
-							if f, _, ok := loadOfField(c.Call.Args[1]); ok && f == "container" && !underOpt(b, opts, "container") {
-								bad = true
-								og.Fail(r.pos(c.Pos()), "the container name is written with the container option off")
-							}
-						}
-						if callIs(c, "time", "(Time).AppendFormat") {
-							if !underOpt(b, opts, "timestamp") {
-								bad = true
-								og.Fail(r.pos(c.Pos()), "the timestamp is written with the timestamp option off")
-							}
-							if layout, ok := constStr(c.Call.Args[2]); !ok || layout != "2006-01-02T15:04:05.999999999Z07:00" {
-								bad = true
-								og.Fail(r.pos(c.Pos()), "the timestamp layout is %s, not RFC3339Nano", describe(c.Call.Args[2], 0))
-							}
-							tc, ok := unspill(c.Call.Args[0]).(*ssa.Call)
-							good := ok && callIs(tc, "time", "Unix")
-							if good {
-								z, okz := constInt(tc.Call.Args[0])
-								f, _, okf := loadOfField(stripConv(tc.Call.Args[1]))
-								good = okz && z == 0 && okf && f == "T"
-							}
-							if !good {
-								bad = true
-								og.Fail(r.pos(c.Pos()), "the formatted time is %s, not time.Unix(0, int64(entry.T))", describe(c.Call.Args[0], 0))
-							}
-						}
-					}
-				}
-			}
-		}
-		if !bad {
-			og.OK("colour values under opts.color; container under opts.container; RFC3339Nano of time.Unix(0, T) under opts.timestamp").At(r.pos(fn.Pos()))
-		}
-	}
+	ruleRenderGuards(r, og, fn, opts)
 
 	// ---- colour assignment first-wins
 	of := r.Ob("PV-FIRST", "main.renderResult colour assignment", "a container gets its colour when it is first seen and keeps it; the colour is the palette entry selected by the number of containers seen so far")
 	{
 		var mu *ssa.MapUpdate
-		allInstrs(fn, func(in ssa.Instruction) {
-			if m, ok := in.(*ssa.MapUpdate); ok {
-				if mt, ok := m.Map.Type().Underlying().(*types.Map); ok && isStringType(mt.Elem()) {
-					mu = m
+		for _, gf := range funcGroup(fn) {
+			allInstrs(gf, func(in ssa.Instruction) {
+				if m, ok := in.(*ssa.MapUpdate); ok {
+					if mt, ok := m.Map.Type().Underlying().(*types.Map); ok && isStringType(mt.Elem()) && isStringType(mt.Key()) {
+						mu = m
+					}
 				}
-			}
-		})
+			})
+		}
 		if mu == nil {
 			of.Fail(r.pos(fn.Pos()), "no colour assignment found")
 		} else {
 			var lk *ssa.Lookup
-			allInstrs(fn, func(in ssa.Instruction) {
-				if l, ok := in.(*ssa.Lookup); ok && l.CommaOk && l.X == mu.Map && l.Index == mu.Key {
+			allInstrs(mu.Parent(), func(in ssa.Instruction) {
+				if l, ok := in.(*ssa.Lookup); ok && l.CommaOk && l.Index == mu.Key && (l.X == mu.Map || describe(l.X, 2) == describe(mu.Map, 2)) {
 					lk = l
 				}
 			})
@@ -627,4 +557,299 @@ func argIndex(c *ssa.Call, v ssa.Value) int {
 		}
 	}
 	return -1
+}
+
+// ruleRenderGuards decides the option guards of rendering by dataflow over renderResult and
+// everything it calls in its package (helpers, methods, closures): a value is colour-derived when it
+// comes from the colour tables (colors, resetColor), from a map that colour values are stored into, from
+// a function that returns such a value, or through a parameter that is given one. Every append of a
+// colour-derived value to a byte buffer must happen where the colour option is known to be on - in the
+// function itself, or because the closure / helper that does it only exists or is only called there.
+func ruleRenderGuards(r *Run, og *Obligation, fn *ssa.Function, opts ssa.Value) {
+	grp := funcGroup(fn)
+	inGrp := map[*ssa.Function]bool{}
+	for _, f := range grp {
+		inGrp[f] = true
+	}
+	isOpt := func(v ssa.Value, name string) bool {
+		f, base, ok := loadOfField(v)
+		if !ok || f != name {
+			return false
+		}
+		if fv, ok := base.(*ssa.FreeVar); ok {
+			if b := freeVarBinding(fv); b != nil {
+				base = b
+			}
+		}
+		return base == opts || spillParam(base) == opts || originValueIn(base, grp) == opts || originValueIn(spillParam(base), grp) == opts
+	}
+	localUnder := func(b *ssa.BasicBlock, name string) bool {
+		for _, f := range factsAt(b) {
+			if isOpt(f.Cond, name) && f.Truth {
+				return true
+			}
+		}
+		return false
+	}
+	// under: the block runs only with the option on (locally, or because its function does)
+	var under func(b *ssa.BasicBlock, name string, depth int) bool
+	under = func(b *ssa.BasicBlock, name string, depth int) bool {
+		if localUnder(b, name) {
+			return true
+		}
+		if depth > 3 {
+			return false
+		}
+		f := b.Parent()
+		if f == fn {
+			return false
+		}
+		// every place the function is created (closure) or called (named helper) is under the option
+		n, all := 0, true
+		for _, g := range grp {
+			allInstrs(g, func(in ssa.Instruction) {
+				switch x := in.(type) {
+				case *ssa.MakeClosure:
+					if x.Fn == ssa.Value(f) {
+						n++
+						if !under(x.Block(), name, depth+1) {
+							all = false
+						}
+					}
+				case ssa.CallInstruction:
+					if f.Parent() == nil && staticCallee(x) == f {
+						n++
+						if !under(x.Block(), name, depth+1) {
+							all = false
+						}
+					}
+				}
+			})
+		}
+		return n > 0 && all
+	}
+	// ---- colour-derived values
+	taint := map[ssa.Value]bool{}
+	taintMap := map[string]bool{}
+	retTaint := map[*ssa.Function]bool{}
+	mapKey := func(v ssa.Value) string {
+		v = stripTypeOnly(v)
+		if u, ok := v.(*ssa.UnOp); ok && u.Op == token.MUL {
+			if f, base, ok := fieldNameOf(u.X); ok {
+				return "F:" + typeKey(base.Type()) + "." + f
+			}
+			if al, ok := u.X.(*ssa.Alloc); ok {
+				return "A:" + al.Name() + "@" + al.Parent().Name()
+			}
+			if fv, ok := u.X.(*ssa.FreeVar); ok {
+				if b := freeVarBinding(fv); b != nil {
+					if al, ok := b.(*ssa.Alloc); ok {
+						return "A:" + al.Name() + "@" + al.Parent().Name()
+					}
+				}
+			}
+		}
+		for _, lv := range phiLeaves(v) {
+			if mm, ok := lv.(*ssa.MakeMap); ok {
+				return "M:" + mm.Name() + "@" + mm.Parent().Name()
+			}
+		}
+		return ""
+	}
+	isColourGlobal := func(v ssa.Value) bool {
+		u, ok := v.(*ssa.UnOp)
+		if !ok || u.Op != token.MUL {
+			return false
+		}
+		g, ok := u.X.(*ssa.Global)
+		return ok && (globalName(g) == "colors" || globalName(g) == "resetColor")
+	}
+	for changed, iter := true, 0; changed && iter < 12; iter++ {
+		changed = false
+		mark := func(v ssa.Value) {
+			if v != nil && !taint[v] {
+				taint[v] = true
+				changed = true
+			}
+		}
+		for _, g := range grp {
+			allInstrs(g, func(in ssa.Instruction) {
+				switch x := in.(type) {
+				case *ssa.UnOp:
+					if isColourGlobal(x) {
+						mark(x)
+					}
+					if x.Op == token.MUL {
+						if al, ok := x.X.(*ssa.Alloc); ok {
+							for _, st := range storesTo(al) {
+								if taint[st.Val] {
+									mark(x)
+								}
+							}
+						}
+						if fv, ok := x.X.(*ssa.FreeVar); ok {
+							if b := freeVarBinding(fv); b != nil {
+								if al, ok := b.(*ssa.Alloc); ok {
+									for _, st := range storesTo(al) {
+										if taint[st.Val] {
+											mark(x)
+										}
+									}
+								}
+							}
+						}
+					}
+				case *ssa.Lookup:
+					if taint[x.X] || isColourGlobal(x.X) {
+						mark(x)
+					}
+					if k := mapKey(x.X); k != "" && taintMap[k] {
+						mark(x)
+					}
+				case *ssa.Extract:
+					if taint[x.Tuple] && x.Index == 0 {
+						mark(x)
+					}
+				case *ssa.Phi:
+					for _, e := range x.Edges {
+						if taint[e] {
+							mark(x)
+						}
+					}
+				case *ssa.Convert:
+					if taint[x.X] {
+						mark(x)
+					}
+				case *ssa.ChangeType:
+					if taint[x.X] {
+						mark(x)
+					}
+				case *ssa.Slice:
+					if taint[x.X] {
+						mark(x)
+					}
+				case *ssa.MapUpdate:
+					if taint[x.Value] {
+						if k := mapKey(x.Map); k != "" && !taintMap[k] {
+							taintMap[k] = true
+							changed = true
+						}
+					}
+				case *ssa.Return:
+					for _, res := range x.Results {
+						if taint[res] && isStringType(res.Type()) && !retTaint[g] {
+							retTaint[g] = true
+							changed = true
+						}
+					}
+				case *ssa.Call:
+					callee := staticCallee(x)
+					if callee != nil && inGrp[callee] {
+						if retTaint[callee] {
+							mark(x)
+						}
+						for k, a := range x.Call.Args {
+							if taint[a] && k < len(callee.Params) {
+								mark(callee.Params[k])
+							}
+						}
+					}
+				}
+			})
+		}
+	}
+	bad := false
+	nColour, nContainer, nTime := 0, 0, 0
+	for _, g := range grp {
+		for _, c := range callsIn(g) {
+			call, ok := c.(*ssa.Call)
+			if !ok {
+				continue
+			}
+			if isAppend(call) {
+				if bt, ok := call.Type().Underlying().(*types.Slice); !ok || typeString(bt.Elem()) != "byte" && typeString(bt.Elem()) != "uint8" {
+					continue
+				}
+				arg := call.Call.Args[1]
+				if taint[arg] {
+					nColour++
+					if !under(call.Block(), "color", 0) {
+						bad = true
+						og.Fail(r.pos(call.Pos()), "colour bytes (%s) are appended on a path where the colour option is not known to be on", describe(arg, 1))
+					}
+				}
+				if f, _, ok := loadOfField(arg); ok && f == "container" {
+					nContainer++
+					if !under(call.Block(), "container", 0) {
+						bad = true
+						og.Fail(r.pos(call.Pos()), "the container name is written with the container option off")
+					}
+				}
+			}
+			if callIs(call, "time", "(Time).AppendFormat") {
+				nTime++
+				if !under(call.Block(), "timestamp", 0) {
+					bad = true
+					og.Fail(r.pos(call.Pos()), "the timestamp is written with the timestamp option off")
+				}
+				if layout, ok := constStr(call.Call.Args[2]); !ok || layout != "2006-01-02T15:04:05.999999999Z07:00" {
+					bad = true
+					og.Fail(r.pos(call.Pos()), "the timestamp layout is %s, not RFC3339Nano", describe(call.Call.Args[2], 0))
+				}
+				tv := originValueIn(call.Call.Args[0], grp)
+				tc, ok := tv.(*ssa.Call)
+				good := ok && callIs(tc, "time", "Unix")
+				if good {
+					z, okz := constInt(tc.Call.Args[0])
+					f, _, okf := loadOfField(stripConv(tc.Call.Args[1]))
+					good = okz && z == 0 && okf && f == "T"
+				}
+				if !good {
+					bad = true
+					og.Fail(r.pos(call.Pos()), "the formatted time is %s, not time.Unix(0, int64(entry.T))", describe(call.Call.Args[0], 0))
+				}
+			}
+		}
+	}
+	if nColour < 2 || nContainer < 1 || nTime < 1 {
+		bad = true
+		og.Fail(r.pos(fn.Pos()), "expected colour appends (found %d), a container-name append (found %d) and a timestamp append (found %d) in the rendering code", nColour, nContainer, nTime)
+	}
+	if !bad {
+		og.OK("%d colour append(s) under the colour option; container under opts.container; RFC3339Nano of time.Unix(0, T) under opts.timestamp", nColour).At(r.pos(fn.Pos()))
+	}
+}
+
+// sameBlockValue resolves a load of a local cell to the value stored into that cell earlier in the
+// same block, when no call lies between the store and the load (a captured variable that is
+// assigned and immediately read back).
+func sameBlockValue(v ssa.Value) ssa.Value {
+	u, ok := v.(*ssa.UnOp)
+	if !ok || u.Op != token.MUL {
+		return v
+	}
+	al, ok := u.X.(*ssa.Alloc)
+	if !ok {
+		return v
+	}
+	instrs := u.Block().Instrs
+	idx := -1
+	for i, in := range instrs {
+		if in == ssa.Instruction(u) {
+			idx = i
+		}
+	}
+	for i := idx - 1; i >= 0; i-- {
+		switch x := instrs[i].(type) {
+		case *ssa.Store:
+			if x.Addr == ssa.Value(al) {
+				return x.Val
+			}
+		case ssa.CallInstruction:
+			if _, isBuiltin := x.Common().Value.(*ssa.Builtin); !isBuiltin {
+				return v
+			}
+		}
+	}
+	return v
 }
